@@ -21,6 +21,8 @@ def _d(x):
             return "None"
         if x.startswith(("!", "#", "L", "Q")) or x in ("T", "F", "ok"):
             return x
+        if x.startswith("N") and x[1:].isdigit():
+            return x[1:]
         return repr(dec(x))
     except Exception:
         return x
@@ -302,6 +304,8 @@ def general_stream(rng, n, obs, mods=MODS, enc_frac=0.1, chain=3, with_join=True
         s = urlgen.rand_url_string(rng)
         h = st.new(s, encoded=(rng.random() < enc_frac))
         st.obs_all(h, obs_base or obs)
+        if with_rt:
+            st.obs_all(st.rt(h), obs)
         for _ in range(chain):
             k = rand_mod(rng, st, h, mods)
             st.obs_all(k, obs)
